@@ -166,3 +166,20 @@ fn c12_transition_with_mapper_fn() {
     assert!(t.current() == Lv(4) && unsafe { LAST } == want(4));
     assert!(unsafe { CALLS } == 8);
 }
+
+/// the four `*_inclusive_range` default methods of `Lerp` (RangeInclusive::into_inner is outside the Verus subset: assumed there) hand
+/// (start, end, factor) of the range, in that order, to the method of their name
+#[kani::proof]
+fn c12_lerp_range_forms() {
+    let (a, b): (u8, u8) = (kani::any(), kani::any());
+    let f: f32 = kani::any();
+    let want = |m: u8| (m, a, b, f.to_bits());
+    assert!(<Lv as Lerp<f32>>::lerp_unclamped_precise_inclusive_range(Lv(a)..=Lv(b), f) == Lv(1) && unsafe { LAST } == want(1));
+    assert!(<Lv as Lerp<f32>>::lerp_unclamped_inclusive_range(Lv(a)..=Lv(b), f) == Lv(2) && unsafe { LAST } == want(2));
+    assert!(<Lv as Lerp<f32>>::lerp_precise_inclusive_range(Lv(a)..=Lv(b), f) == Lv(3) && unsafe { LAST } == want(3));
+    assert!(<Lv as Lerp<f32>>::lerp_inclusive_range(Lv(a)..=Lv(b), f) == Lv(4) && unsafe { LAST } == want(4));
+    // and on a real element type: the range form equals the two-argument form
+    let (x, y): (u8, u8) = (kani::any(), kani::any());
+    assert!(<u8 as Lerp<f32>>::lerp_unclamped_inclusive_range(x..=y, 1.0) == <u8 as Lerp<f32>>::lerp_unclamped(x, y, 1.0));
+    assert!(<u8 as Lerp<f32>>::lerp_inclusive_range(x..=y, 0.0) == x);
+}
